@@ -26,11 +26,11 @@ import (
 
 type c11Case struct {
 	Runner  string // ptrace unshare container
-	Program string // sleep spin exit-after tree sigign
+	Program string // sleep spin exit-after tree sigign daemon (a descendant that left the session; pid-namespace runners only)
 	D       int    // ms before the program exits by itself (exit-after)
 	Code    int
 	NFiles  int    // extra listed descriptors (lengthens the launch)
-	When    string // pre sync check point delay around-exit
+	When    string // pre sync check point delay around-exit both-pending (container: the result has reached the host when the cancel is seen)
 	K       int    // k-th callback
 	Ban     bool   // decision of the callback in which the cancel happens
 	Point   string
@@ -42,7 +42,7 @@ var c11Points = []string{"execve:sent", "execve:sync-reply", "execve:synced", "e
 
 func c11GenCase(rt *rapid.T) c11Case {
 	c := c11Case{Runner: rapid.SampledFrom([]string{"ptrace", "ptrace", "unshare", "container", "container"}).Draw(rt, "runner"),
-		Program: rapid.SampledFrom([]string{"sleep", "spin", "exit-after", "exit-after", "tree", "sigign"}).Draw(rt, "program"),
+		Program: rapid.SampledFrom([]string{"sleep", "spin", "exit-after", "exit-after", "tree", "sigign", "daemon"}).Draw(rt, "program"),
 		D:       rapid.SampledFrom([]int{0, 1, 2, 5, 10}).Draw(rt, "d"), Code: rapid.SampledFrom([]int{0, 0, 7}).Draw(rt, "code"),
 		NFiles: rapid.SampledFrom([]int{0, 0, 4, 12, 24}).Draw(rt, "nfiles"), K: rapid.IntRange(0, 4).Draw(rt, "k"), Ban: rapid.Bool().Draw(rt, "ban"),
 		Point: rapid.SampledFrom(c11Points).Draw(rt, "point"), Sync: rapid.Bool().Draw(rt, "sync")}
@@ -54,7 +54,7 @@ func c11GenCase(rt *rapid.T) c11Case {
 	case "unshare":
 		whens = append(whens, "sync")
 	case "container":
-		whens = append(whens, "point", "point", "sync")
+		whens = append(whens, "point", "point", "sync", "both-pending", "both-pending")
 	}
 	c.When = rapid.SampledFrom(whens).Draw(rt, "when")
 	if c.When == "sync" {
@@ -62,6 +62,12 @@ func c11GenCase(rt *rapid.T) c11Case {
 	}
 	if c.When == "around-exit" {
 		c.Program = "exit-after"
+	}
+	if c.When == "both-pending" {
+		c.Program, c.D = "exit-after", 0
+	}
+	if c.Program == "daemon" && c.Runner == "ptrace" {
+		c.Program = "tree" // the ptrace runner confines by policy (setsid is not on its allow list), not by a pid namespace
 	}
 	return c
 }
@@ -104,9 +110,18 @@ func c11Run(c c11Case, ce *c09Env, rec *vh.Recorder) error {
 		s.Add("sigign")
 		traced()
 		s.Add("sleep:60000")
+	case "daemon":
+		s.Add("daemon{")
+		s.Add("sleep:60000")
+		s.Add("}")
+		traced()
+		s.Add("sleep:60000")
 	}
 	s.Add(fmt.Sprintf("exit:%d", c.Code))
 	allow := append([]string{"fork", "clone", "kill", "rt_sigprocmask", "execve", "execveat"}, probeBaseAllow...)
+	if c.Program == "daemon" {
+		allow = append(allow, "setsid")
+	}
 	var trace []string
 	if c.Runner == "ptrace" {
 		trace = []string{"newfstatat"}
@@ -163,10 +178,47 @@ func c11Run(c c11Case, ce *c09Env, rec *vh.Recorder) error {
 		}
 		defer func() { container.VerifHook.Point = nil; c11PointMu.Unlock() }()
 	}
+	if c.When == "both-pending" {
+		// hold the host at its wait point until the program's result has been received from the container, then cancel:
+		// the select in waitForDone finds both the result and the cancellation ready
+		c11PointMu.Lock()
+		var okSent atomic.Bool
+		resultSeen := make(chan struct{})
+		var once sync.Once
+		container.VerifHook.Msg = func(_ *container.VerifSocket, dir, kind string) {
+			if dir == "recv" && okSent.Load() {
+				once.Do(func() { close(resultSeen) })
+			}
+		}
+		container.VerifHook.Point = func(name string) {
+			switch name {
+			case "execve:ok-sent":
+				okSent.Store(true)
+			case "execve:wait":
+				select {
+				case <-resultSeen:
+					time.Sleep(time.Duration(200+c.DelayUs%800) * time.Microsecond) // from the socket into the channel
+				case <-time.After(3 * time.Second):
+				}
+				doCancel()
+			}
+		}
+		defer func() { container.VerifHook.Point, container.VerifHook.Msg = nil, nil; c11PointMu.Unlock() }()
+	}
 	start := time.Now()
 	switch c.When {
 	case "delay":
-		go func() { time.Sleep(time.Duration(c.DelayUs) * time.Microsecond); doCancel() }()
+		go func() {
+			if c.Program == "daemon" {
+				// the interesting instants are those after the daemon has left the program's session
+				for dl := time.Now().Add(2 * time.Second); time.Now().Before(dl) && len(liveTagged(tag)) < 2; {
+					time.Sleep(500 * time.Microsecond)
+				}
+				time.Sleep(3 * time.Millisecond) // the intermediate process of the double fork is gone by then
+			}
+			time.Sleep(time.Duration(c.DelayUs) * time.Microsecond)
+			doCancel()
+		}()
 	case "around-exit":
 		go func() {
 			// the launch takes a few ms; aim at the program's own exit +- a sweep
@@ -257,6 +309,22 @@ func c11Run(c c11Case, ce *c09Env, rec *vh.Recorder) error {
 			ce.close()
 			return vh.Violf("C11:env-broken-by-cancel", "Ping after a cancelled Execve: %v; %s", e, desc)
 		}
+		// the environment is pooled: the next run on it must work (and be cancellable) like on a fresh one
+		var fs probe.Script
+		fs.Add("exit:7")
+		ftr, ferr := runContainer(sandboxOpts{Script: &fs, Env: env, Timeout: 10 * time.Second})
+		if ferr != nil {
+			return ferr
+		}
+		if ftr.Hung {
+			killTagged(ftr.Tag)
+			ce.close()
+			return vh.Violf("C11:env-broken-by-cancel", "the next Execve (exit 7) on the environment did not return within 10 s; %s", desc)
+		}
+		if ftr.Result.Status != runner.StatusNonzeroExitStatus || ftr.Result.ExitStatus != 7 {
+			ce.close()
+			return vh.Violf("C11:env-broken-by-cancel", "the next Execve (exit 7) on the environment returned %v exit %d %q; %s", ftr.Result.Status, ftr.Result.ExitStatus, ftr.Result.Error, desc)
+		}
 	}
 	between := cancelledAt.Load() > start.UnixNano() && res.Status == runner.StatusTimeLimitExceeded && c.When != "pre"
 	rec.Case(c, between, "runner="+c.Runner, "when="+c.When, "verdict="+res.Status.String())
@@ -268,8 +336,8 @@ func c11Run(c c11Case, ce *c09Env, rec *vh.Recorder) error {
 
 func TestC11Cancel(t *testing.T) {
 	rec := vh.NewRecorder(t, "C11", "exploration",
-		"cancel part: runner in {ptrace, unshare, container} x program in {sleeps, spins, exits n after d ms, forks a signal-ignoring tree, ignores all signals} x launch length (0..24 extra listed descriptors) x cancellation instant in {context already cancelled, inside SyncFunc, inside the k-th Handler callback with an allow or ban answer (tracee stopped at a syscall), at each named host point of Execve (tag-verif hooks: sent, sync-reply, synced, ok-sent, wait), 0..15000 us after the call (biased to 0..600), around the program's own exit}; "+
-			"oracle: returns within 10 s (otherwise the program is alive and nobody is killing it = cancellation lost); verdict is Time Limit Exceeded or the program's genuine verdict (only with its end marker); never Runner Error or Disallowed Syscall; nothing tagged survives; the environment answers Ping; non-trivial = the cancellation fell between call entry and the program's end and the verdict is TLE")
+		"cancel part: runner in {ptrace, unshare, container} x program in {sleeps, spins, exits n after d ms, forks a signal-ignoring tree, ignores all signals, starts a daemon that left its session (pid-namespace runners)} x launch length (0..24 extra listed descriptors) x cancellation instant in {context already cancelled, inside SyncFunc, inside the k-th Handler callback with an allow or ban answer (tracee stopped at a syscall), at each named host point of Execve (tag-verif hooks: sent, sync-reply, synced, ok-sent, wait), 0..15000 us after the call (biased to 0..600), around the program's own exit, container: held at the host's wait point until the program's result has arrived (both events pending)}; "+
+			"oracle: returns within 10 s (otherwise the program is alive and nobody is killing it = cancellation lost); verdict is Time Limit Exceeded or the program's genuine verdict (only with its end marker); never Runner Error or Disallowed Syscall; nothing tagged survives; the environment answers Ping and runs the next program (exit 7); non-trivial = the cancellation fell between call entry and the program's end and the verdict is TLE")
 	ce := &c09Env{}
 	defer ce.close()
 	vh.Check(t, rec, c11GenCase, func(c c11Case) error { return c11Run(c, ce, rec) })
